@@ -68,6 +68,9 @@ func NewRule(enabled bool, scheme, host, path, destination string, internal bool
 	if len(destination) == 0 {
 		return nil, errors.New("Empty destination")
 	}
+	if _, err := url.Parse(destination); err != nil {
+		return nil, fmt.Errorf("Destination is not a URL: %v", err)
+	}
 	lowpat := strings.ToLower(path)
 	firstIdx := strings.Index(lowpat, "*")
 	wci := make([]int, 0)
